@@ -1,5 +1,6 @@
 import SFV.Proofs.AppsGlue
 import SFV.Proofs.AppsSubgraph
+import SFV.Proofs.AppsSearch
 
 /-!
 # C19 — GBS application helpers are combinatorially exact and structurally sound
@@ -234,6 +235,27 @@ theorem toplist_inserts_denser {l : List (D × List Nat)} (t : D × List Nat) (m
 
 end TopList
 
+/-- **search.**  Whatever the seeds and the random choices, the dictionary returned files every entry
+under its size within the requested range (each size once); every entry is a sorted duplicate-free set of
+graph nodes of that size listed with its exactly computed density; every per-size list is sorted by
+non-increasing (density, nodes), free of repeated subgraphs and no longer than `max_count`. -/
+theorem search_sound {g : Graph} (hn : g.nodes.Nodup) {pick : Pick} (hp : Lawful pick)
+    {subs : List (List Nat)} {minS maxS maxCount : Nat} {sel : Sel} {d : Dense}
+    (h : search g subs minS maxS maxCount sel pick = .ok d) :
+    (d.map (·.1)).Nodup ∧
+    ∀ e ∈ d, minS ≤ e.1 ∧ e.1 ≤ maxS ∧
+      SortedDesc e.2 ∧ NoDupSets e.2 ∧ e.2.length ≤ max maxCount 1 ∧
+      ∀ t ∈ e.2, t.1 = density g t.2 ∧ t.2.length = e.1 ∧ t.2.Nodup ∧ t.2.Pairwise (· ≤ ·) ∧
+        ∀ v ∈ t.2, v ∈ g.nodes :=
+  search_spec hn hp h
+
+/-- with at least one seed subgraph every requested size gets a non-empty list -/
+theorem search_covers_sizes {g : Graph} (hn : g.nodes.Nodup) {pick : Pick} (hp : Lawful pick)
+    {subs : List (List Nat)} {minS maxS maxCount : Nat} {sel : Sel} {d : Dense} (hne : subs ≠ [])
+    (h : search g subs minS maxS maxCount sel pick = .ok d) :
+    ∀ s, minS ≤ s → s ≤ maxS → ∃ l, (s, l) ∈ d ∧ l ≠ [] :=
+  search_covers hn hp hne h
+
 /-! ## sample post-processing (`sample.py`) -/
 
 /-- `postselect` keeps exactly the samples whose total count is in range, in their original order -/
@@ -285,6 +307,11 @@ example : shrink exG [0, 1, 2, 3, 4] (.weight [3, 1, 2, 0, 0, 0]) exPick = .ok [
 -- resize with weights over a range on both sides of the starting size
 example : resize exG [1, 2, 3] 2 5 (.weight [3, 1, 2, 0, 0, 7]) exPick =
     .ok [(3, [1, 2, 3]), (4, [0, 1, 2, 3]), (5, [0, 1, 2, 3, 5]), (2, [1, 2])] := by decide
+-- search over three seeds, two places per size
+example : search exG [[1, 2, 3], [3, 4, 5], [0, 5]] 2 4 2 .uniform exPick =
+    .ok [(3, [(1, [3, 4, 5]), (1, [1, 2, 3])]),
+         (4, [(5 / 6, [0, 1, 2, 3]), (2 / 3, [2, 3, 4, 5])]),
+         (2, [(1, [3, 5]), (1, [1, 2])])] := by decide +kernel
 -- top list: a tie with the minimum, coin says replace
 example : updateList [((3 : Int), [0, 1]), (2, [1, 2])] (2, [4, 3, 3]) 2 true =
     ([(3, [0, 1]), (2, [3, 4])], true) := by decide
